@@ -79,6 +79,8 @@ def handleCall (inp out : Toks) : String :=
             else s!"propfail collection-map {e}"
           | "mapdrop" => if generic == collOutcome ms true then "ok coll-mapdrop " ++ e else s!"skip collection-mapdrop {e}"
           | "union" =>
+            -- tilecover.Collection returns the first member's error
+            if ms.any (· == "err") then (if generic == "err" then "ok coll-union-err " ++ e else s!"propfail collection-union {e}") else
             let u := (ms.flatMap parseSet).eraseDups.mergeSort (· ≤ ·)
             if (parseSet generic).mergeSort (· ≤ ·) == u then "ok coll-union " ++ e else s!"propfail collection-union {e}"
           | _ => "ok coll " ++ e)
